@@ -73,6 +73,18 @@ def takeN (n : Nat) (inp : Input) : Res (List Byte) :=
 
 def isCont (b : Byte) : Bool := 0x80 ≤ b && b ≤ 0xBF
 
+/-- second byte of a 3-byte scalar: excludes overlong forms (E0) and surrogates (ED) -/
+def second3 (b0 b1 : Byte) : Bool :=
+  if b0 = 0xE0 then 0xA0 ≤ b1 && b1 ≤ 0xBF
+  else if b0 = 0xED then 0x80 ≤ b1 && b1 ≤ 0x9F
+  else isCont b1
+
+/-- second byte of a 4-byte scalar: excludes overlong forms (F0) and values above U+10FFFF (F4) -/
+def second4 (b0 b1 : Byte) : Bool :=
+  if b0 = 0xF0 then 0x90 ≤ b1 && b1 ≤ 0xBF
+  else if b0 = 0xF4 then 0x80 ≤ b1 && b1 ≤ 0x8F
+  else isCont b1
+
 /-- well-formed UTF-8 byte sequences exactly as accepted by Rust's `from_utf8`:
     no overlong forms, no surrogates, nothing above U+10FFFF -/
 def validUtf8 : List Byte → Bool
@@ -86,16 +98,12 @@ def validUtf8 : List Byte → Bool
     else if 0xE0 ≤ b0 && b0 ≤ 0xEF then
       match rest with
       | b1 :: b2 :: r =>
-        (if b0 = 0xE0 then 0xA0 ≤ b1 && b1 ≤ 0xBF
-         else if b0 = 0xED then 0x80 ≤ b1 && b1 ≤ 0x9F
-         else isCont b1) && isCont b2 && validUtf8 r
+        second3 b0 b1 && isCont b2 && validUtf8 r
       | _ => false
     else if 0xF0 ≤ b0 && b0 ≤ 0xF4 then
       match rest with
       | b1 :: b2 :: b3 :: r =>
-        (if b0 = 0xF0 then 0x90 ≤ b1 && b1 ≤ 0xBF
-         else if b0 = 0xF4 then 0x80 ≤ b1 && b1 ≤ 0x8F
-         else isCont b1) && isCont b2 && isCont b3 && validUtf8 r
+        second4 b0 b1 && isCont b2 && isCont b3 && validUtf8 r
       | _ => false
     else false
 
